@@ -35,12 +35,15 @@ type Prog struct {
 	Pkgs    []*packages.Package          // module packages in scope
 	PkgByID map[string]*packages.Package // by import path (all loaded, deps included)
 	SSA     *ssa.Program
-	Funcs   []*ssa.Function // all source functions (incl. anonymous) of in-scope module packages, sorted
+	Funcs   []*ssa.Function // all live source functions (incl. anonymous) of in-scope module packages, sorted
+	Dead    []*ssa.Function // source functions of in-scope packages that nothing reachable mentions
 	cg      *callgraph.Graph
 	res     *callResolver
 	idx     *idxFacts
 	pur     *purityResult
 	nInstr  int
+	sites   map[*ssa.Function][]ssa.CallInstruction
+	asValue map[*ssa.Function]bool
 }
 
 // loadProg loads dir (a checkout of the module) with optional overlay.
@@ -114,6 +117,7 @@ func loadProg(dir string, overlay map[string][]byte) (*Prog, error) {
 			p.nInstr += len(b.Instrs)
 		}
 	}
+	p.dropDeadFuncs()
 	sort.Slice(p.Funcs, func(i, j int) bool {
 		a, b := p.Funcs[i], p.Funcs[j]
 		if a.Pkg.Pkg.Path() != b.Pkg.Pkg.Path() {
@@ -125,6 +129,276 @@ func loadProg(dir string, overlay map[string][]byte) (*Prog, error) {
 		return a.Pos() < b.Pos()
 	})
 	return p, nil
+}
+
+// dropDeadFuncs removes from p.Funcs the functions no user of the library can reach: roots are every method
+// (it may be invoked through an interface or on a value handed to the user), every exported function of a
+// non-internal package and the package initialisers; a function is live when a live function mentions it (as a
+// callee or as a value). What remains dead - exported helpers of internal packages nobody calls, the entry
+// points of the out-of-scope code generators - has no behaviour a property could speak about.
+func (p *Prog) dropDeadFuncs() {
+	live := map[*ssa.Function]bool{}
+	var work []*ssa.Function
+	mark := func(f *ssa.Function) {
+		if f != nil && !live[f] {
+			live[f] = true
+			work = append(work, f)
+		}
+	}
+	for _, pk := range p.Pkgs {
+		if sp := p.SSA.Package(pk.Types); sp != nil {
+			mark(sp.Func("init"))
+		}
+	}
+	for _, fn := range p.Funcs {
+		if fn.Parent() != nil {
+			continue
+		}
+		if fn.Signature.Recv() != nil {
+			mark(fn)
+			continue
+		}
+		path := fn.Pkg.Pkg.Path()
+		internal := strings.Contains(path+"/", "/internal/")
+		if !internal && token.IsExported(fn.Name()) || fn.Name() == "init" || strings.HasPrefix(fn.Name(), "init#") || fn.Name() == "main" {
+			mark(fn)
+		}
+	}
+	for len(work) > 0 {
+		fn := work[len(work)-1]
+		work = work[:len(work)-1]
+		for _, af := range fn.AnonFuncs {
+			mark(af)
+		}
+		for _, b := range fn.Blocks {
+			for _, in := range b.Instrs {
+				var ops []*ssa.Value
+				for _, op := range in.Operands(ops) {
+					if op == nil || *op == nil {
+						continue
+					}
+					switch t := (*op).(type) {
+					case *ssa.Function:
+						mark(t)
+					case *ssa.MakeClosure:
+						if f, ok := t.Fn.(*ssa.Function); ok {
+							mark(f)
+						}
+					}
+				}
+			}
+		}
+	}
+	var keep []*ssa.Function
+	for _, fn := range p.Funcs {
+		if live[fn] {
+			keep = append(keep, fn)
+		} else {
+			p.Dead = append(p.Dead, fn)
+			for _, b := range fn.Blocks {
+				p.nInstr -= len(b.Instrs)
+			}
+		}
+	}
+	p.Funcs = keep
+	p.dropJSONDeadFuncs()
+	if os.Getenv("QF_LIST_DEAD") != "" {
+		for _, fn := range p.Dead {
+			fmt.Fprintln(os.Stderr, "dead:", fn.String(), p.pos(fn.Pos()))
+		}
+	}
+}
+
+// dropJSONDeadFuncs: encoding/json decodes into interface{} only nil, bool, float64, string, []interface{} and
+// map[string]interface{} (and json.Number on request). Where a function receives records whose every caller
+// filled them by json.Decoder.Decode / json.Unmarshal and nothing else, the branch of a type switch on a record
+// value that asserts any other type (the `case int` of jsonRecordsToData) never runs, and a function called only
+// from such branches (fillInts) is as dead as one nobody mentions.
+func (p *Prog) dropJSONDeadFuncs() {
+	isJSONRecords := func(t types.Type) bool {
+		sl, ok := t.Underlying().(*types.Slice)
+		if !ok {
+			return false
+		}
+		m, ok := sl.Elem().Underlying().(*types.Map)
+		if !ok {
+			return false
+		}
+		_, isIface := m.Elem().Underlying().(*types.Interface)
+		return isIface
+	}
+	jsonType := func(t types.Type) bool {
+		switch u := t.Underlying().(type) {
+		case *types.Basic:
+			return u.Kind() == types.Bool || u.Kind() == types.Float64 || u.Kind() == types.String || u.Kind() == types.UntypedNil
+		case *types.Slice, *types.Map, *types.Interface:
+			return true
+		}
+		return false
+	}
+	callersOf := map[*ssa.Function][]*ssa.Call{}
+	valueUse := map[*ssa.Function]bool{}
+	for _, fn := range p.Funcs {
+		eachInstr(fn, func(in ssa.Instruction) {
+			var ops []*ssa.Value
+			for i, op := range in.Operands(ops) {
+				if op == nil || *op == nil {
+					continue
+				}
+				if f, ok := (*op).(*ssa.Function); ok {
+					if call, isCall := in.(*ssa.Call); isCall && i == 0 && call.Call.Value == *op {
+						callersOf[f] = append(callersOf[f], call)
+					} else {
+						valueUse[f] = true
+					}
+				}
+			}
+		})
+	}
+	filledByJSONOnly := func(arg ssa.Value) bool {
+		ld, ok := arg.(*ssa.UnOp)
+		if !ok || ld.Op != token.MUL {
+			return false
+		}
+		al, ok := ld.X.(*ssa.Alloc)
+		if !ok {
+			return false
+		}
+		decoded := false
+		for _, r := range *al.Referrers() {
+			switch t := r.(type) {
+			case *ssa.UnOp:
+			case *ssa.DebugRef:
+			case *ssa.MakeInterface:
+				for _, r2 := range *t.Referrers() {
+					call, ok := r2.(*ssa.Call)
+					if !ok {
+						return false
+					}
+					o := calleeObj(call)
+					if o == nil || o.Pkg() == nil || o.Pkg().Path() != "encoding/json" || o.Name() != "Decode" && o.Name() != "Unmarshal" {
+						return false
+					}
+					decoded = true
+				}
+			case *ssa.Store:
+				// only the zero initialisation of the variable
+				if t.Addr != ssa.Value(al) {
+					return false
+				}
+				if c, ok := t.Val.(*ssa.Const); !ok || !c.IsNil() {
+					return false
+				}
+			default:
+				return false
+			}
+		}
+		return decoded
+	}
+	deadSite := map[*ssa.Call]bool{}
+	for _, fn := range p.Funcs {
+		var recs *ssa.Parameter
+		for _, prm := range fn.Params {
+			if isJSONRecords(prm.Type()) {
+				recs = prm
+			}
+		}
+		if recs == nil || valueUse[fn] || len(callersOf[fn]) == 0 {
+			continue
+		}
+		okAll := true
+		for _, call := range callersOf[fn] {
+			idx := -1
+			for i, prm := range fn.Params {
+				if prm == recs {
+					idx = i
+				}
+			}
+			if idx < 0 || idx >= len(call.Call.Args) || !filledByJSONOnly(call.Call.Args[idx]) {
+				okAll = false
+			}
+		}
+		if !okAll {
+			continue
+		}
+		var fromRecs func(v ssa.Value, d int) bool
+		fromRecs = func(v ssa.Value, d int) bool {
+			if d > 10 || v == nil {
+				return false
+			}
+			switch t := v.(type) {
+			case *ssa.Parameter:
+				return t == recs
+			case *ssa.Extract:
+				return fromRecs(t.Tuple, d+1)
+			case *ssa.Next:
+				return fromRecs(t.Iter, d+1)
+			case *ssa.Range:
+				return fromRecs(t.X, d+1)
+			case *ssa.Lookup:
+				return fromRecs(t.X, d+1)
+			case *ssa.UnOp:
+				return t.Op == token.MUL && fromRecs(t.X, d+1)
+			case *ssa.IndexAddr:
+				return fromRecs(t.X, d+1)
+			case *ssa.Index:
+				return fromRecs(t.X, d+1)
+			}
+			return false
+		}
+		for _, b := range fn.Blocks {
+			iff, ok := b.Instrs[len(b.Instrs)-1].(*ssa.If)
+			if !ok {
+				continue
+			}
+			ex, ok := iff.Cond.(*ssa.Extract)
+			if !ok || ex.Index != 1 {
+				continue
+			}
+			ta, ok := ex.Tuple.(*ssa.TypeAssert)
+			if !ok || jsonType(ta.AssertedType) || !fromRecs(ta.X, 0) {
+				continue
+			}
+			dead := b.Succs[0]
+			if len(dead.Preds) != 1 {
+				continue
+			}
+			for _, d := range fn.Blocks {
+				if dead.Dominates(d) {
+					for _, in := range d.Instrs {
+						if call, ok := in.(*ssa.Call); ok {
+							deadSite[call] = true
+						}
+					}
+				}
+			}
+		}
+	}
+	if len(deadSite) == 0 {
+		return
+	}
+	var keep []*ssa.Function
+	for _, fn := range p.Funcs {
+		root := fn
+		for root.Parent() != nil {
+			root = root.Parent()
+		}
+		dead := len(callersOf[root]) > 0 && !valueUse[root] && root.Signature.Recv() == nil && !token.IsExported(root.Name())
+		for _, call := range callersOf[root] {
+			if !deadSite[call] {
+				dead = false
+			}
+		}
+		if dead {
+			p.Dead = append(p.Dead, fn)
+			for _, b := range fn.Blocks {
+				p.nInstr -= len(b.Instrs)
+			}
+		} else {
+			keep = append(keep, fn)
+		}
+	}
+	p.Funcs = keep
 }
 
 // CallGraph returns the VTA call graph seeded with CHA (built lazily).
